@@ -88,7 +88,7 @@ def batches(ctx):
             if r.get(k) is None:
                 return False, f"{k} raised {r.get(k + '_error')}"
             for sol in list(r[k]) + list(r[k + "_any"]):
-                ok, why = LB.valid_ordered(c["S"], c["O"], sol)
+                ok, why = LB.valid_ordered(c["S"], c["O"], sol, pres=c.get("pres"))
                 if not ok:
                     return False, f"{k}: {why}"
                 if LB.cost_labelled(c["S"], sol, c["costs"], True) == float("inf"):
@@ -144,7 +144,7 @@ def extra(ctx):
             ok, why = True, ""
             for k in ("ext", "base"):
                 for sol in (r.get(k) or []) + r.get(k + "_any", []):
-                    ok, why = LB.valid_ordered(case["S"], case["O"], sol)
+                    ok, why = LB.valid_ordered(case["S"], case["O"], sol, pres=case.get("pres"))
                     if not ok:
                         break
                 if not ok or r.get(k) is None and "error" not in r:
@@ -247,7 +247,7 @@ def search(ctx):
             r = c02.impl(case)
             for k in ("ext", "base"):
                 for sol in (r.get(k) or []) + r.get(k + "_any", []):
-                    ok, why = LB.valid_ordered(case["S"], case["O"], sol)
+                    ok, why = LB.valid_ordered(case["S"], case["O"], sol, pres=case.get("pres"))
                     if not ok:
                         return Finding("search", case, r, "(validity predicate)", False, f"{k}: {why}")
         n += 1
@@ -278,7 +278,7 @@ def replay_case(payload):
         if r.get(k) is None:
             return False, f"{k} raised {r.get(k + '_error')}", r
         for sol in r[k] + r.get(k + "_any", []):
-            ok, why = valid(case["S"], case["O"], sol)
+            ok, why = (valid(case["S"], case["O"], sol, pres=case.get("pres")) if "pres" in case else valid(case["S"], case["O"], sol))
             if not ok:
                 return False, f"{k}: {why}", r
     return True, "every returned solution is valid", r
